@@ -20,7 +20,7 @@ RULE = ("case = generated layout (depth <= 4, 10-25 entries incl. look-alikes an
         "(./src, src, a/b, absolute) ; runs: check + edit from the project dir, then edit again from 1-2 other working "
         "directories (relative and absolute -c). Non-trivial = layout with at least one out-of-scope decoy carrying a missing "
         "reference and one in-scope file; distinct = case index.")
-PROBES = ["symlink_to_file", "symlink_to_dir", "symlink_outside", "dir_named_rs", "lookalike_ext", "abs_source_dir", "cwd_outside",
+PROBES = ["config_in_subdir", "symlink_to_file", "symlink_to_dir", "symlink_outside", "dir_named_rs", "lookalike_ext", "abs_source_dir", "cwd_outside",
           "cwd_root_abs", "empty_scope", "multi_ext", "hidden_rs", "nested_depth4"]
 ASSUMPTIONS = ["source_dir itself is a real directory (not a symlink)"]
 DEADLINE = {"quick": 200, "thorough": 3000}
@@ -46,8 +46,13 @@ def rust_extension(name):
 
 def gen(rng):
     tags = set()
-    srcform = rng.choice(["./src", "src", "a/b", "abs", "./src/"])
-    srcrel = {"./src": "src", "src": "src", "a/b": "a/b", "abs": "src", "./src/": "src"}[srcform]
+    srcform = rng.choice(["./src", "src", "a/b", "abs", "./src/", "../src", "../a/b", ".gen/src", "./.hidden", "..", "src/../code"])
+    # (directory holding the config, source_dir as written) -> source dir relative to proj/
+    cfgdir = ""
+    if srcform in ("../src", "../a/b", ".."):
+        cfgdir = "conf"
+    srcrel = {"./src": "src", "src": "src", "a/b": "a/b", "abs": "src", "./src/": "src", "../src": "src", "../a/b": "a/b",
+              ".gen/src": ".gen/src", "./.hidden": ".hidden", "..": "", "src/../code": "code"}[srcform]
     if srcform == "abs":
         tags.add("abs_source_dir")
     exts = rng.choice([None, None, ["rs"], ["rs", "rsx"], ["RS"], ["txt", "rs"], ["zzz"], ["rs", "bak"]])
@@ -60,7 +65,7 @@ def gen(rng):
         n[0] += 1
         return "mk%03dq" % n[0]
 
-    base = "proj/" + srcrel
+    base = ("proj/" + srcrel).rstrip("/")
     dirs = ["", "net", "net/tls", "net/tls/deep", "net/tls/deep/er", "util", "d.rs", "x.rsx", ".hid"]
     names = ["main.rs", "lib.rs", "a.RS", "a.rsx", "a.rs.bak", "rs", ".rs", "a.", "a.rs~", "b.txt", ".hidden.rs", "a.b.rs", "Makefile",
              "c.Rs", "rsfile", "x.rs.rs", "notes.bak"]
@@ -86,8 +91,18 @@ def gen(rng):
     extra["proj/other/x.rs"] = {"t": "f", "mode": 0o644, "data": stmt(mk())}
     extra["outside/other.rs"] = {"t": "f", "mode": 0o644, "data": stmt(mk())}
     extra["outside/odir/in_odir.rs"] = {"t": "f", "mode": 0o644, "data": stmt(mk())}
-    if srcrel != "src":
+    if srcrel != "src" and srcrel != "":
         extra["proj/src/decoy.rs"] = {"t": "f", "mode": 0o644, "data": stmt(mk())}
+    # look-alike directories that a sloppy path resolution would pick instead of the configured one
+    if srcrel != "":
+        for look in ("proj/conf/src/look.rs", "proj/conf/a/b/look.rs", "proj/gen/src/look.rs", "proj/hidden/look.rs",
+                     "proj/conf/look.rs"):
+            if not look.startswith(base + "/"):
+                extra[look] = {"t": "f", "mode": 0o644, "data": stmt(mk())}
+    if srcform == "src/../code":
+        extra["proj/src/keep.txt"] = {"t": "f", "mode": 0o644, "data": b"the src directory must exist for src/../code to resolve\n"}
+    if cfgdir:
+        tags.add("config_in_subdir")
     # a source-like tree under the *working directory* of the other-cwd runs: must never be touched
     extra["outside/src/cwd_decoy.rs"] = {"t": "f", "mode": 0o644, "data": stmt(mk())}
     extra["outside/a/b/cwd_decoy.rs"] = {"t": "f", "mode": 0o644, "data": stmt(mk())}
@@ -112,6 +127,8 @@ def gen(rng):
     cfg = {"source_dir": "@ROOT@/proj/src" if srcform == "abs" else srcform, "structured": rng.random() < 0.3,
            "use_cache": rng.choice([True, None, False]), "extensions": exts}
     wm = {"cfg": cfg, "files": {}, "extra": extra, "lock": None}
+    if cfgdir:
+        wm["cfg_name"] = cfgdir + "/Breadlog.yaml"
     seed = rng.getrandbits(40) | 1
     return wm, seed, tags, base
 
@@ -135,7 +152,9 @@ def model_scope(wm, base):
 
 
 def opened_for_read(res):
-    return {o.path for o in res.ops if o.kind == "OPEN_R" and o.ret >= 0 and core.path_class(o.path) in ("proj", "outside")}
+    import os as _os
+    return {_os.path.normpath(o.path) for o in res.ops if o.kind == "OPEN_R" and o.ret >= 0
+            and core.path_class(o.path) in ("proj", "outside")}
 
 
 def evaluate(wm, seed, base, ctx, cwds=(("outside", "rel"), ("/", "abs"))):
@@ -148,7 +167,9 @@ def evaluate(wm, seed, base, ctx, cwds=(("outside", "rel"), ("/", "abs"))):
     def V(sym, what, tag=""):
         viols.append({"signature": "%s%s" % (sym, ("|" + tag) if tag else ""), "what": what, "scenario": scenario, "digest": None})
 
-    knobs0 = {"cwd": "proj", "config_arg": "rel", "threads": 2}
+    cfgname = wm.get("cfg_name", "Breadlog.yaml")
+    lockpath = "proj/" + (cfgname.rsplit("/", 1)[0] + "/" if "/" in cfgname else "") + "Breadlog.lock"
+    knobs0 = {"cwd": "proj", "config_arg": "rel", "threads": 2, "config_name": cfgname}
     # --check from the project directory
     chk = scen.exec_run(wm, True, plan, knobs0, ctx)
     dg.update(chk["res"].trace_digest().encode())
@@ -179,7 +200,7 @@ def evaluate(wm, seed, base, ctx, cwds=(("outside", "rel"), ("/", "abs"))):
     # edit from the project directory, then from other working directories
     results = []
     for cwd, arg in (("proj", "rel"),) + tuple(cwds):
-        knobs = {"cwd": cwd, "config_arg": arg, "threads": 2}
+        knobs = {"cwd": cwd, "config_arg": arg, "threads": 2, "config_name": cfgname}
         run = scen.exec_run(wm, False, plan, knobs, ctx)
         res = run["res"]
         dg.update(res.trace_digest().encode())
@@ -194,7 +215,7 @@ def evaluate(wm, seed, base, ctx, cwds=(("outside", "rel"), ("/", "abs"))):
         changed = core.diff_worlds(run["before"], run["after"], ignore=("tmp",))
         lock_expected = world.cfg_uses_lock(wm["cfg"]) and bool(scope)
         for p, how in changed:
-            if p == "proj/Breadlog.lock" and how == "added" and world.cfg_uses_lock(wm["cfg"]):
+            if p == lockpath and how == "added" and world.cfg_uses_lock(wm["cfg"]):
                 continue
             if p in scope and how == "changed":
                 continue
@@ -212,14 +233,14 @@ def evaluate(wm, seed, base, ctx, cwds=(("outside", "rel"), ("/", "abs"))):
                 V("not-insert-only", p, tag)
             elif len(ins) != 1:
                 V("in-scope-file-not-edited", "%s has a statement without reference but received %d tokens" % (p, len(ins)), tag)
-        if lock_expected and "proj/Breadlog.lock" not in run["after"]:
-            V("lock-missing-next-to-config", "lock in use, %d files edited, but no proj/Breadlog.lock" % len(scope), tag)
+        if lock_expected and lockpath not in run["after"]:
+            V("lock-missing-next-to-config", "lock in use, %d files edited, but no %s" % (len(scope), lockpath), tag)
         if not scope and res.status == 0:
             V("empty-scope-accepted", "no in-scope file but edit exited 0", tag)
         if scope and res.status != 0:
             V("edit-failed", "edit exited %d on a fault-free run" % res.status, tag)
         results.append((cwd, core.digest_world({p: e for p, e in run["after"].items()
-                                                if not p.startswith("tmp") and p != "proj/Breadlog.yaml"})))
+                                                if not p.startswith("tmp") and not p.endswith("Breadlog.yaml")})))
     if len({d for _c, d in results}) > 1:
         V("result-depends-on-cwd", "post-state digests differ between working directories: %s" % [c for c, _ in results])
     for v in viols:
